@@ -29,7 +29,7 @@ m = {
         "guard": "cargo feature `verif`",
         "enable": "the harness crate depends on a5 = { path = \"/repo\", features = [\"verif\"] }; every check runs `cargo build --offline` in /verif/harness, which rebuilds /repo's working tree with the feature on",
         "baseline_off_cmd": "cd /repo && cargo test --workspace --no-fail-fast --offline",
-        "source_commits": ["59be0d9"],
+        "source_commits": ["59be0d9", "810ae07"],
         "add_only": True,
     },
     "engines": [
